@@ -92,3 +92,8 @@ add("C06", "fault_enumeration", "schedule exploration with history checkers: WSG
     "for a wait-for cycle (violation at once) - otherwise inconclusive. ASGI Stream/SendEvent responses run on a virtual-time grid of producer delay x send delay x disconnect time (+-eps) x raise point. Monitors: "
     "bounded return, exactly-once cleanup judged at quiescence, no leaked pool thread / pending task, delivered ids are a prefix of yielded ids, producer not driven beyond its next step after close, exception identity.",
     "Wall clock only in watchdogs (expiry without a proven cycle = inconclusive); producer cleanup marker is synchronous; ASGI bound = disconnect + (producer step | ping) + 3 x send delay in virtual time.")
+add("C12", "exploration", "exception-class oracle at the driver over grammar-aware mutated requests, keyed by mechanism (entry point, exception type, innermost baize function, message stem)",
+    "Every public entry point (15 request accessors, FileResponse with Range/If-Range, Router with every convertor, Subpaths, Hosts, Files, Pages) of both interfaces is called on requests whose path bytes, raw "
+    "query, header values and body are produced by grammar-aware mutation of valid values (token surgery, delimiter injection, quote imbalance, 20/400/5000-digit numbers, invalid UTF-8, 28 odd charsets) plus raw "
+    "Latin-1 noise and a list of regression seeds; anything that escapes other than a 4xx HTTPException, ClientDisconnect or RuntimeError('Stream consumed') is a violation with its own mechanism key.",
+    "Only client-controllable inputs are fuzzed; the environ/scope is built outside the guarded region (a harness encoding problem is a HarnessError, never a violation).")
